@@ -555,7 +555,7 @@ func init() {
 		Exec:      c03Exec,
 		Judge:     c03Judge,
 		Describe:  c03Describe,
-		QuickN:    3000,
+		QuickN:    3000*2,
 		ThoroughN: 150000,
 	})
 }
